@@ -6,7 +6,7 @@ from .. import env, coq, runner, tables
 
 LEVEL = 'proof'
 META = dict(
-    text='Coq theorems over any ring with i*i = -1 (hence over C), for strings of any length: the product computed in the shape of MutablePauliString._imul_helper/_imul_atom_helper (regenerated atom table, left/right sign, phase_log_i & 3) and the dense pauli_mask arithmetic with _vectorized_pauli_mul_phase have as matrix the product of the operands\' matrices, coefficient and phase included; the commutation tests decide P Q = +-Q P; negation, scalar multiples, inverse, qubit remapping, dense<->sparse conversion and PauliSum +,-,* are matrix homomorphisms. A correspondence run compares every operator of PauliString / MutablePauliString / DensePauliString / PauliSum with the model evaluated inside Coq on exact Gaussian-rational coefficients (exhaustive pairs and triples on small registers, random up to 5 qubits), and numpy/scipy oracles check products, commutation, Clifford conjugation, PauliStringPhasor, PauliSumExponential and expectation values on the real objects. Histories of in-place operations on one MutableDensePauliString / MutablePauliString / PauliSum (every view of the object read before and after every step; copies taken on the way and operands must keep their values) are compared step by step with the trace of the model (Cliff/PauliHist.v: a history of products and scalar multiples has as matrix the same history on the matrices, rejected steps change nothing, assignments replace exactly the addressed letters) and with the numpy matrix of the history.',
+    text='Coq theorems over any ring with i*i = -1 (hence over C), for strings of any length: the product computed in the shape of MutablePauliString._imul_helper/_imul_atom_helper (regenerated atom table, left/right sign, phase_log_i & 3) and the dense pauli_mask arithmetic with _vectorized_pauli_mul_phase have as matrix the product of the operands\' matrices, coefficient and phase included; the commutation tests decide P Q = +-Q P; negation, scalar multiples, inverse, qubit remapping, dense<->sparse conversion and PauliSum +,-,* are matrix homomorphisms. A correspondence run compares every operator of PauliString / MutablePauliString / DensePauliString / PauliSum with the model evaluated inside Coq on exact Gaussian-rational coefficients (exhaustive pairs and triples on small registers, random up to 5 qubits), and numpy/scipy oracles check products, commutation, Clifford conjugation, PauliStringPhasor, PauliSumExponential and expectation values on the real objects. Histories of in-place operations on one MutableDensePauliString / MutablePauliString / PauliSum (every view of the object read before and after every step; copies taken on the way and operands must keep their values) are compared step by step with the trace of the model (Cliff/PauliHist.v: a history of products and scalar multiples has as matrix the same history on the matrices, rejected steps change nothing, assignments replace exactly the addressed letters) and with the numpy matrix of the history. For a PauliSum the views that rely on the sum\'s own qubits (qubits, matrix(), sparse_matrix(), with_qubits, expectation values over a map listing exactly the qubits acted on, PauliSumExponential) are judged against the support of the reference matrix after every step, and the reported qubits are compared in Coq with psum_support of the model state (proved sorted, duplicate-free, exactly the qubits of the terms, and a register on which the product of two sums is the product of the matrices).',
     note='Trusted: Coq kernel; the Python adapters in vf/checks/c14.py (calling Cirq, printing exact rationals; float coefficients are dyadic so Cirq\'s arithmetic is exact on them); vf/tables_c14.py. Conjugation by Cliffords, phasors, exponentials and expectation values are compared with numpy/scipy references on generated inputs (tolerance 1e-8), not proved. Theorems are closed under the global context (no axioms).',
     technique='Rocq/Coq proof over an executable Gallina model + regenerated finite tables + vm_compute correspondence and numpy oracles against the implementation',
 )
@@ -168,8 +168,10 @@ EXTRA = ('Definition inpl (sign : Z) (self : pstr (K:=GQ)) (isl : bool) (l : lis
          'Definition sstep_of (c : Z * list (pstr (K:=GQ)) * GQ) : sstep (K:=GQ) :=\n'
          '  match c with (op, l, x) => match op with 0 => SAdd (psum_of_terms G l) | 1 => SSub (psum_of_terms G l)\n'
          '    | 2 => SMul (psum_of_terms G l) | _ => SScale x end end.\n'
-         'Definition shist (c : list (pstr (K:=GQ)) * list (Z * list (pstr (K:=GQ)) * GQ) * list psumG) : bool :=\n'
-         '  match c with (la, l, t) => strace_eqb (psum_trace G (psum_of_terms G la) (map sstep_of l)) t end.\n')
+         '(* the states after every step, and the qubits the sum reports after every step against the qubits of the model state *)\n'
+         'Definition shist (c : list (pstr (K:=GQ)) * list (Z * list (pstr (K:=GQ)) * GQ) * list psumG * list (list Z)) : bool :=\n'
+         '  match c with (la, l, t, qt) => let m := psum_trace G (psum_of_terms G la) (map sstep_of l) in\n'
+         '    strace_eqb m t && zll_eqb (map psum_qubitsG m) qt end.\n')
 
 _DEPS = {'built': False}
 
@@ -1856,6 +1858,114 @@ def psum_views(ad, S, R, qs, psi):
     return bad
 
 
+def support_of(R, n):
+    """Positions of an n-position register on which the operator R acts non-trivially: R is a tensor product with the identity
+    at position k iff it commutes with X_k and Z_k.  Distinct Pauli strings are linearly independent, so this is exactly the
+    set of qubits carried by the terms with a non-zero coefficient in any expansion of R as a Pauli sum."""
+    out = []
+    for k in range(n):
+        Xk = kron_all([PM[1] if j == k else PM[0] for j in range(n)])
+        Zk = kron_all([PM[3] if j == k else PM[0] for j in range(n)])
+        if not (close(R @ Xk, Xk @ R) and close(R @ Zk, Zk @ R)):
+            out.append(k)
+    return out
+
+
+def embed(M, sub, n):
+    """M acts on the positions `sub` (in that order) -> M (x) identity elsewhere, as a matrix on positions 0..n-1."""
+    sub = list(sub)
+    rest = [k for k in range(n) if k not in sub]
+    order = sub + rest
+    T = np.kron(M, np.eye(2 ** len(rest))).reshape([2] * (2 * n))
+    p = [order.index(k) for k in range(n)]
+    return T.transpose(p + [n + x for x in p]).reshape(2 ** n, 2 ** n)
+
+
+def reduce_to(R, sub, n):
+    """R = R_sub (x) identity outside `sub` -> R_sub with its axes in the order of `sub` (partial trace over the rest)."""
+    sub = list(sub)
+    rest = [k for k in range(n) if k not in sub]
+    order = sub + rest
+    T = R.reshape([2] * (2 * n)).transpose(order + [n + x for x in order])
+    T = T.reshape(2 ** len(sub), 2 ** len(rest), 2 ** len(sub), 2 ** len(rest))
+    return np.trace(T, axis1=1, axis2=3) / 2 ** len(rest)
+
+
+def psum_default_views(ad, S, R, qs):
+    """The views that depend on the sum's own idea of its qubits (nothing handed in): `qubits`, `matrix()`, `sparse_matrix()`,
+    `with_qubits`, expectation values over a qubit map that lists exactly the qubits acted on (in another order),
+    PauliSumExponential built on the sum.  R is the reference matrix on the register qs = 0..n-1."""
+    import scipy.linalg as sl
+    cirq = ad.cirq
+    n = len(qs)
+    bad = []
+    sup = support_of(R, n)
+    want_q = tuple(ad.q(k) for k in sup)
+    R_sub = reduce_to(R, sup, n)
+    try:
+        got_q = tuple(S.qubits)
+    except Exception as ex:
+        return [f'qubits raises {type(ex).__name__}']
+    if got_q != want_q:
+        bad.append(f'qubits (reports {[q.x for q in got_q]}, the operator acts on exactly {sup})')
+    inside = all(isinstance(q, cirq.LineQubit) and q.x in qs for q in got_q) and len(set(got_q)) == len(got_q)
+    for name, f in (('matrix()', lambda: S.matrix()), ('sparse_matrix()', lambda: S.sparse_matrix().toarray())):
+        try:
+            M = f()
+        except Exception as ex:
+            bad.append(f'{name} raises {type(ex).__name__}')
+            continue
+        # the matrix over the default qubit order: the operator on the reported qubits, identity on the others
+        if not (inside and M.shape == (2 ** len(got_q),) * 2 and close(embed(M, [q.x for q in got_q], n), R)):
+            bad.append(f'{name} (shape {M.shape} on qubits {[q.x for q in got_q]})')
+    fresh = [ad.q(100 + 3 * i) for i in range(len(sup))][::-1]       # a new order as well
+    try:
+        T = S.with_qubits(*fresh)
+        if not close(T.matrix(fresh), R_sub) or tuple(T.qubits) != tuple(sorted(fresh)):
+            bad.append('with_qubits')
+    except Exception as ex:
+        bad.append(f'with_qubits raises {type(ex).__name__}')
+    try:
+        S.with_qubits(*(fresh + [ad.q(99)]))
+        bad.append('with_qubits (one qubit too many accepted)')
+    except ValueError:
+        pass
+    if sup and _hermitian(R):
+        # any qubit ordering: a map that lists exactly the qubits acted on, reversed
+        order = sup[::-1]
+        Ro = reduce_to(R, order, n)
+        m = len(order)
+        phi = np.array([complex(math.cos(0.4 + 0.9 * i), math.sin(0.3 + 1.3 * i)) for i in range(2 ** m)])
+        phi = phi / np.linalg.norm(phi)
+        qmap = {ad.q(k): i for i, k in enumerate(order)}
+        want = np.vdot(phi, Ro @ phi)
+        for name, f in (('expectation_from_state_vector', lambda: S.expectation_from_state_vector(phi, qmap)),
+                        ('expectation_from_density_matrix', lambda: S.expectation_from_density_matrix(np.outer(phi, phi.conj()), qmap))):
+            try:
+                ev = f()
+            except NotImplementedError:          # a term with a complex coefficient (they may cancel in the matrix)
+                continue
+            except Exception as ex:
+                bad.append(f'{name} over the qubits acted on raises {type(ex).__name__}: {ex}'[:160])
+                continue
+            if abs(ev - want) > 1e-6:
+                bad.append(f'{name} over the qubits acted on')
+    terms = list(S)
+    if terms and all(len(t) > 0 and abs(complex(t.coefficient).imag) == 0 for t in terms) \
+            and all(bool(cirq.commutes(a, b)) for a in terms for b in terms):
+        e = 0.37
+        try:
+            pse = cirq.PauliSumExponential(S, e)
+            pq = tuple(pse.qubits)
+            M = pse.matrix()
+            ref = sl.expm(1j * e * R_sub)
+            if pq != want_q or not (close(M, ref) or (M.shape == ref.shape and phase_equal(M, ref))):
+                bad.append(f'PauliSumExponential (qubits {[q.x for q in pq]}, matrix shape {M.shape})')
+        except Exception as ex:
+            bad.append(f'PauliSumExponential raises {type(ex).__name__}')
+    return bad
+
+
 def _hermitian(R):
     return bool(np.allclose(R, R.conj().T, atol=1e-9))
 
@@ -1886,9 +1996,15 @@ def run_psum_history(ctx, ad, desc, rows=None, stream='psum_history'):
             report(f'{stream}:views:' + ','.join(bad),
                    f'PauliSum {ad.psum(ta)} {when}: after the in-place history {done} the views {bad} do not show the same '
                    f'operations applied to the matrices (object: {S})')
+        bad = psum_default_views(ad, S, R, qs)
+        if bad:
+            # signature: the first view (fixed order) that is wrong; the details go into the description
+            report(f'{stream}:default-qubit-views:' + bad[0].split(' ')[0],
+                   f'PauliSum {ad.psum(ta)} {when}: after the in-place history {done} the views that use the qubits of the sum itself '
+                   f'{bad} do not show the same operations applied to the matrices (object: {S})')
 
     look('before any operation')
-    cmodel, trace = [], []
+    cmodel, trace, qtrace = [], [], []
     for st in desc['steps']:
         kind = st[0]
         S0 = S
@@ -1929,6 +2045,10 @@ def run_psum_history(ctx, ad, desc, rows=None, stream='psum_history'):
                     report(f'{stream}:operand-changed', f'/= {xv} rebinding changed the old PauliSum')
             done.append(f'{"*=" if kind == "scale" else "/="} {xv!r}')
         trace.append(sum_terms_of(ad, S))
+        try:
+            qtrace.append([int(q.x) for q in S.qubits])
+        except Exception:
+            qtrace.append([-1])
         look(f'after {done[-1]}')
         if len(done) % 2 == 1:
             snapshots.append((S.copy(), R.copy()))
@@ -1936,7 +2056,8 @@ def run_psum_history(ctx, ad, desc, rows=None, stream='psum_history'):
         if not close(obj.matrix(qm), R0):
             report(f'{stream}:snapshot', f'a copy taken from a PauliSum during the history {done} changed when the original was modified later')
     if rows is not None and trace:
-        rows.add(f'({c_list(ta, c_ps)}, {c_list(cmodel)}, {c_list(trace, c_sum)})', f'PauliSum history {ta} {desc["steps"]} -> {trace}')
+        rows.add(f'({c_list(ta, c_ps)}, {c_list(cmodel)}, {c_list(trace, c_sum)}, {c_list(qtrace, lambda l: c_list(l, Z))})',
+                 f'PauliSum history {ta} {desc["steps"]} -> {trace}, reported qubits {qtrace}')
     return ok_all
 
 
@@ -1955,11 +2076,65 @@ def rand_psum_desc(rng):
     return dict(start=mk(0), n=n, steps=steps)
 
 
+def psum_history_grid(full=True):
+    """Fixed histories of one PauliSum, the same for every seed.  (a) every ordered pair of letter patterns on 2 positions as
+    (one-term sum, operand) under each of += -= *= (the operand a PauliString or a PauliSum in turn): the operand stays on the
+    qubits of the sum, brings a new qubit, or removes one (P * P, P - P); (b) sums of several terms on a 3-qubit register with
+    string and sum operands that overlap / extend / cancel.  Each first step is followed by a scalar multiple and one more
+    step that changes the set of qubits again.  All views are read before the first step, so every step acts on an object that
+    has been looked at.  full=False (quick tier) takes one of the three operators per pair in (a), in turn."""
+    out = []
+    masks = all_masks(2)
+    I1 = (F(1), F(0))
+    for ia, ma in enumerate(masks):
+        for ib, mb in enumerate(masks):
+            for io, op in enumerate(('add', 'sub', 'mul')):
+                if not full and io != (ia + ib + ib // 4) % 3:      # quick tier: one of the three operators per pair, in turn
+                    continue
+                j = (ia * 16 + ib) * 3 + io
+                cb = [I1, (F(0), F(-1)), (F(1, 2), F(0)), (F(-2), F(0))][(ia + ib + io) % 4]
+                steps = [[op, [ser_ps((cb if op == 'mul' else I1, mask_items(mb)))], j % 2]]
+                if j % 3 == 0:
+                    steps.append(['scale', sz((F(2), F(0)))])
+                # one more change of the set of qubits: the operand again (P * P = 1, P - P = 0), or the other pattern
+                steps.append([('mul', 'sub', 'add')[(j // 3) % 3], [ser_ps((I1, mask_items(mb if j % 2 else ma)))], (j + 1) % 2])
+                out.append(dict(start=[ser_ps((I1, mask_items(ma)))], n=2, steps=steps))
+    X, Y, Z_ = 1, 2, 3
+    starts = [[(I1, [(0, X)]), (I1, [(0, Z_)])],
+              [(I1, [(0, X), (1, Y)]), ((F(1, 2), F(0)), [(1, Z_)])],
+              [((F(1), F(2)), [(0, Y)]), ((F(-1), F(0)), [(0, X), (1, Z_)]), ((F(3), F(0)), [])],
+              [(I1, [(1, Z_)])],
+              [((F(2), F(0)), [])],
+              []]
+    operands = [[(I1, [(0, Y)])],
+                [((F(0), F(-1)), [(1, Y)])],
+                [(I1, [(2, X), (0, Z_)])],
+                [(I1, [(1, Z_)])],
+                [(I1, [(0, X), (1, Y)])],
+                [(I1, [(1, Z_)]), ((F(2), F(0)), [(2, X)])],
+                [(I1, [(0, X)]), ((F(-1), F(0)), [(2, Y), (0, Z_)])],
+                [((F(1, 2), F(0)), []), (I1, [(2, Z_)])]]
+    j = 0
+    for st in starts:
+        for ob in operands:
+            for op in ('add', 'sub', 'mul'):
+                j += 1
+                oc = operands[(j + 3) % len(operands)]
+                steps = [[op, [ser_ps(t) for t in ob], j % 2],
+                         [('mul', 'sub', 'add', 'mul')[j % 4], [ser_ps(t) for t in oc], (j // 2) % 2]]
+                if j % 2:
+                    steps.insert(1, ['div', sz((F(0), F(2)))])
+                if j % 5 == 0 and st:
+                    steps.append(['sub', [ser_ps(st[0])], 1])
+                out.append(dict(start=[ser_ps(t) for t in st], n=3, steps=steps))
+    return out
+
+
 def stream_histories(ctx, ad, count, mps_stride=1):
     cirq, rng = ad.cirq, ctx.rng
     GD = Rows('ds_history', f'{T_DS} * list (dstep (K:=GQ)) * list (bool * {T_DS})', 'dhist')
     GM = Rows('mps_history', f'{T_PS} * list (Z * bool * list (plike (K:=GQ))) * list ({T_PS})', 'mhist')
-    GS = Rows('psum_history', f'list ({T_PS}) * list (Z * list ({T_PS}) * GQ) * list psumG', 'shist')
+    GS = Rows('psum_history', f'list ({T_PS}) * list (Z * list ({T_PS}) * GQ) * list psumG * list (list Z)', 'shist')
     for desc in dense_history_grid():
         ctx.count('ds_history_grid', desc, True,
                   sample=dict(start=desc['start'], steps=[s[0] for s in desc['steps']]) if len(desc['start']['mask']) == 2 else None)
@@ -1967,6 +2142,9 @@ def stream_histories(ctx, ad, count, mps_stride=1):
     for desc in mps_history_grid(mps_stride):
         ctx.count('mps_history_grid', desc, True)
         run_mps_history(ctx, ad, desc, GM)
+    for desc in psum_history_grid(full=mps_stride == 1):
+        ctx.count('psum_history_grid', desc, True, sample=dict(start=desc['start'], steps=[s[0] for s in desc['steps']]) if desc['n'] == 3 else None)
+        run_psum_history(ctx, ad, desc, GS)
     for it in range(count):
         n = rng.choice([1, 2, 3, 3, 4, 4])
         coef = rng.choice(UNITS) if rng.random() < 0.7 else rand_coef(rng)
@@ -2057,7 +2235,10 @@ def _run(ctx):
                 'histories on one mutable object (fixed grid: all ordered pairs of patterns on 1-2 positions followed by every kind of '
                 'in-place step, plus random histories of 1-6 steps incl. rejected steps, self-multiplication, out-of-place operators and '
                 'inline_gaussian_elimination) with all views (state, unitary, decomposition, apply_unitary, frozen/sparse copies, '
-                'equality, approx_eq, repr) read before and after every step, '
+                'equality, approx_eq, repr) read before and after every step; PauliSum histories: fixed grid of all ordered pairs of patterns on 2 positions '
+                '(one-term sum, operand) under += -= *= (operand on the same qubits / a new qubit / cancelling one) and several-term sums on 3 qubits, '
+                'the default-qubit views (qubits, matrix(), sparse_matrix(), with_qubits, minimal-map expectation, PauliSumExponential) judged '
+                'against the support of the reference matrix, '
                 'PauliStringPhasor / P**t / e**(iaP) / PauliSumExponential against scipy expm, expectation values against '
                 '<psi|P|psi> and tr(rho P) for random states and qubit maps; non-trivial = operands share a qubit / operator is '
                 'not the identity case; distinct by canonical input')
